@@ -152,7 +152,7 @@ func TestVerifC19WatchChild(t *testing.T) {
 
 		step := watchStep{}
 
-		for deadline := time.Now().Add(30 * time.Second); time.Now().Before(deadline); time.Sleep(2 * time.Millisecond) {
+		for deadline := time.Now().Add(20 * time.Second); time.Now().Before(deadline); time.Sleep(2 * time.Millisecond) {
 			if logs.Len() > mark {
 				step.Delivered = true
 
@@ -178,6 +178,10 @@ func TestVerifC19WatchChild(t *testing.T) {
 
 		out.Steps = append(out.Steps, step)
 		report() // progress line: the parent uses the last one
+
+		if !step.Delivered {
+			break // the watcher has stopped: nothing more to observe
+		}
 	}
 
 	report()
@@ -240,10 +244,13 @@ func runWatch(w *vf.Writer) {
 		Analyse(in, Compose(initial), Password)
 
 		raw, _ := json.Marshal(watchChildIn{Initial: initial, Steps: steps})
-		cmd := exec.Command(os.Args[0], "-test.run", "^TestVerifC19WatchChild$", "-test.v")
+		cctx, cancel := context.WithTimeout(context.Background(), 3*time.Minute)
+		cmd := exec.CommandContext(cctx, os.Args[0], "-test.run", "^TestVerifC19WatchChild$", "-test.v")
 		cmd.Env = append(os.Environ(), "C19_WATCH_CASE="+string(raw), "VERIF_OUT=/dev/null")
 		outb, err := cmd.CombinedOutput()
 		text := string(outb)
+
+		cancel()
 
 		var res watchChildOut
 
@@ -289,7 +296,7 @@ func runWatch(w *vf.Writer) {
 			case k < len(res.Steps):
 				// the child lives but the watcher did not deliver the rewrite: the background watcher has stopped
 				o.Outcome = "exit:SOther"
-				o.Msg = "watcher did not deliver the event within 30 s (stopped?)"
+				o.Msg = "watcher did not deliver the event within 20 s (stopped?)"
 				outCoq = "(ProcessExit SOther)"
 			default:
 				// the child died during this step (or an earlier one): which panic, from its output
